@@ -313,7 +313,8 @@ def freshness_loop_vars(fn_node) -> Dict[str, str]:
                 isinstance(sub.test.ops[0], ast.In) and isinstance(sub.test.left, ast.Name):
             var = sub.test.left.id
             coll = ast.unparse(sub.test.comparators[0])
-            reassigned = any(isinstance(s, ast.Assign) and any(isinstance(tg, ast.Name) and tg.id == var for tg in s.targets)
+            reassigned = any((isinstance(s, ast.Assign) and any(isinstance(tg, ast.Name) and tg.id == var for tg in s.targets)) or
+                             (isinstance(s, ast.AugAssign) and isinstance(s.target, ast.Name) and s.target.id == var)
                              for s in ast.walk(sub))
             if reassigned:
                 out[var] = coll
@@ -348,10 +349,33 @@ def classify(prog, sites: List[NameSite]):
         if s.kind == "loop-name":
             s.category, s.why = "FRESH", "name built inside freshness loop against %s" % loops.get(s.cls)
             continue
+        if isinstance(s.expr, ast.Name) and s.expr.id in loops:
+            # the name handed over IS the loop-checked variable (`while name in used: name += "_"` ... `add_node(name)`)
+            s.category, s.why = "FRESH", "name went through the freshness loop against %s" % loops[s.expr.id]
+            continue
         par_assign = _assigned_name(s.func.node, s.node)
         if par_assign is not None and par_assign in loops:
             s.category, s.why = "FRESH", "inside freshness loop against %s" % loops[par_assign]
             continue
+        # (a') the value is a local whose only literal-bearing assignments are calls of a freshness generator of the
+        # class / module (`value = self._fresh_name(value)`): the name went through that generator's loop
+        if isinstance(s.expr, ast.Name):
+            vals = _assignments(s.func.node).get(s.expr.id, [])
+            helpers = {}
+            for q2, g in prog.functions.items():
+                if g.module == s.func.module and q2 in gens:
+                    helpers[g.name] = q2
+            def _gen_call(v):
+                if not isinstance(v, ast.Call):
+                    return None
+                nm = v.func.attr if isinstance(v.func, ast.Attribute) else getattr(v.func, "id", None)
+                return helpers.get(nm)
+            bearing = [v for v in vals if _gen_call(v) or literal_parts(v, {"@consts": {}, "@helpers": {}})]
+            if bearing and all(_gen_call(v) for v in bearing):
+                g = _gen_call(bearing[0])
+                s.category, s.why = "FRESH", "name obtained from the freshness loop of %s (checked against %s)" % (
+                    g.rsplit(".", 1)[-1], gens[g][0])
+                continue
         # (b) tuple value / str(tuple)
         if _is_tuple_encoding(s.expr):
             s.category, s.why = "INJ", "tuple-valued name (injective)"
